@@ -1,4 +1,4 @@
-import BV.Lemmas.StreamFrame
+import BV.Lemmas.StreamTiny2
 /-
 C01 — Streaming compression round-trips for every input, setting and call history.
 
@@ -12,9 +12,10 @@ contract, every call returns true without panicking, the stream finishes, and th
 output decodes to the concatenated input.  What is proved: the call-level part (`calls_succeed`,
 `finishes`), the tiling of the input by payload-encoder requests (`requests_tile_input`), the
 bit-exact framing of everything the state machine emits around the payload encoder's bits
-(`delivered_is_framed_concat_*`), and the composition `C01_roundtrip_partial` under the explicit
-hypothesis that each payload piece decodes to its input range.  `stream_no_panic` is NOT proved
-in this file (see the note at the end).
+(`delivered_is_framed_concat_*`), `stream_no_panic_partial` for the 16-byte staging buffer
+(`tiny_buf_invariant`, `tiny_buf_never_overflows`), and the composition `C01_roundtrip_partial`
+under the explicit hypothesis that each payload piece decodes to its input range.  The
+`storage_` and ring-buffer bounds of `stream_no_panic` are NOT proved (see the note at the end).
 -/
 namespace BV.Props.C01
 open BV.Stream BV.Bits
@@ -119,6 +120,39 @@ theorem delivered_is_framed_concat_pad {d : Bytes} {s s' : St} (hc : s.lastBytes
 /-- the carry an encode step leaves is always a proper value of fewer than 8 bits -/
 theorem carry_wellformed (w : Writer) : (carryOf w).1 < 2 ^ (carryOf w).2 ∧ (carryOf w).2 < 8 := carryOf_lt w
 
+/-! ### no panic on the 16-byte staging buffer -/
+
+/-- **stream_no_panic_partial** (1): the invariant `TinyOK` — whenever the output cursor points
+into `tiny_buf_`, the pending bytes fit behind it and there is no carry next to them; a null
+cursor means nothing pending; no carry inside a metadata body — holds after initialisation and is
+preserved by EVERY call (accepted or refused) and by `take_output`.  Hypotheses: the state
+invariant, a carry of at most 14 bits (`carry_bound_invariant` of C20), bounded oracle answers. -/
+theorem tiny_buf_invariant {o : Oracle} {B M fuel op cap : Nat} {input : Bytes} {s s' : St} {io' : Io} {r : Bool}
+    (hB : OracleBounded o B) (hM : (14 + 176 + B) / 8 ≤ M)
+    (hop : op ≤ 3) (hI : Inv s) (hw : s.inputPos + input.length < two64) (hl : s.lastBytesBits ≤ 14)
+    (hT : TinyOK s)
+    (h : compressStream o fuel s op input cap = .ok (s', io', r)) : TinyOK s' :=
+  tinyOK_call hB hM hop hI hw hl hT h
+
+theorem tiny_buf_invariant_initial {s : St} (h : IsFresh s) : TinyOK (ensureInitialized s) := tinyOK_fresh h
+
+theorem tiny_buf_invariant_take {s s' : St} {size : Nat} {out : Bytes} (hT : TinyOK s)
+    (h : takeOutput s size = .ok (s', out)) : TinyOK s' := tinyOK_take hT h
+
+/-- **stream_no_panic_partial** (2): under `TinyOK` none of the four places that index
+`tiny_buf_` can run past its 16 bytes: the padding block is either staged at `tiny_buf_[0..3]` or
+appended behind pending output in `storage_` (never behind a stale `tiny_buf_` cursor — the panic
+fixed in /repo as "tinybuf-stale-padding"); a push and `take_output` stay inside; the metadata
+header (carry ≤ 14 bits, length field ≤ 3 bytes) fits -/
+theorem tiny_buf_never_overflows {s : St} (hT : TinyOK s) (hl : s.lastBytesBits ≤ 14) :
+    (s.lastBytesBits ≠ 0 →
+      injectBytePaddingBlock s = .ok (padResult s (.tiny 0)) ∨ (∃ off, s.nextOut = .dyn off ∧ s.pending.length ≠ 0))
+    ∧ (∀ off (io : Io), s.nextOut = .tiny off → off + min s.pending.length io.availOut ≤ 16)
+    ∧ (∀ off, s.nextOut = .tiny off → takeSliceOk s = true)
+    ∧ ¬ ((bitsOf s.lastBytesBits s.lastBytes).length + 6) / 8 + 8 > 16 :=
+  ⟨fun hlb => pad_tiny_safe hT hl hlb, fun off io hno => push_tiny_safe (io := io) hT hno,
+   fun off hno => take_tiny_safe hT hno, md_header_tiny_safe hl⟩
+
 /-! ### composition -/
 
 /-- what is assumed of the payload encoder for the round trip: a relation `Dec bits bytes`
@@ -157,12 +191,12 @@ example (input : Bytes) (o : Oracle) : MetaBlockDecodes (fun _ _ => True) input 
 example : Contract.accepts .processing 2 10 = true := by decide
 
 /-
-NOT proved here: `stream_no_panic` (no modelled panic branch is reachable from `new` under
-`OracleOK`).  The model has every panic site of the mirrored code as an explicit `.panic`
-outcome, the correspondence run replays ~100k histories per quick run without reaching one, and
-the harness catches real panics (`catch_unwind`) — three were found that way and fixed in /repo
-(see /verif/proposed/*.md).  The invariants needed (capacity of `tiny_buf_` / `storage_`, ring
-indices) are written down in DESIGN.md, Appendix F.
+NOT proved here: the rest of `stream_no_panic` — the bounds on `storage_` (they need
+`OracleOK.fits` and the size arithmetic of `get_brotli_storage`) and the ring-buffer slice bounds
+(index arithmetic of `RingBufferWrite`).  The model has every one of those sites as an explicit
+`.panic` outcome, the correspondence run replays ~100k histories per quick run without reaching
+one, and the harness catches real panics (`catch_unwind`) — three were found that way and fixed
+in /repo (see /verif/proposed/*.md).
 -/
 
 end BV.Props.C01
